@@ -114,7 +114,7 @@ def oracle_words(e):
     """the BIP39 words of entropy e: 11-bit groups of e ‖ first len(e)/4 bits of sha256(e)"""
     words = _table()[0]
     cs_bits = len(e) // 4
-    bits = (int.from_bytes(e, "big") << cs_bits) | (hashlib.sha256(e).digest()[0] >> (8 - cs_bits))
+    bits = (int.from_bytes(e, "big") << cs_bits) | (int.from_bytes(hashlib.sha256(e).digest(), "big") >> (256 - cs_bits))
     n = (8 * len(e) + cs_bits) // 11
     return [words[(bits >> (11 * (n - 1 - i))) & 0x7FF] for i in range(n)]
 
@@ -336,8 +336,11 @@ def eval_pred(kind, case):
         return False, "raised " + type(e).__name__, "no exception"
 
 
-def _eval_job(job):
-    return eval_pred(job[0], job[1])
+def _heavy_job(job):
+    """one expensive evaluation on the real code, run in a worker process: a request line or a predicate case"""
+    if job[0] == "line":
+        return impl_line(job[1])
+    return eval_pred(job[1], job[2])
 
 
 # --------------------------------------------------------------------------------- Trezor vectors of the test-suite
@@ -422,7 +425,7 @@ def run(ctx):
     for n in SIZES:
         ents += [bytes(n), b"\xff" * n, b"\x80" * n, b"\x7f" * n, bytes(range(n)), b"\x00" * (n - 1) + b"\x01",
                  b"\x80" + b"\x00" * (n - 1)]
-        ents += [rbytes(rng, n) for _ in range(ctx.n(40))]
+        ents += [rbytes(rng, n) for _ in range(ctx.n(24))]
     for e in ents:
         add("b2m", f"b2m {xb(e)} {8 * len(e)}")
         preds.append(("roundtrip", {"e": xb(e)}))
@@ -483,7 +486,7 @@ def run(ctx):
     # wrong word counts
     m2b += [("m2b_length", ""), ("m2b_length", " "), ("m2b_length", "\t\n"), ("m2b_length", "abandon"), ("m2b_length", "hello")]
     long24 = [ws for ws in valid if len(ws) == 24]
-    for k in (0, 1, 2, 3, 11, 13, 14, 16, 17, 19, 20, 22, 23, 25, 26, 36, 48):
+    for k in (0, 1, 2, 3, 6, 9, 10, 11, 13, 14, 16, 17, 19, 20, 22, 23, 25, 26, 27, 30, 33, 36, 48):
         for _ in range(3):
             ws = rng.choice(long24)
             seq = (ws + [rng.choice(W) for _ in range(24)])[:k] if rng.random() < 0.5 else [rng.choice(W) for _ in range(k)]
@@ -492,18 +495,26 @@ def run(ctx):
         m2b.append(("m2b_length", " ".join(ws[:-1])))
         m2b.append(("m2b_length", " ".join(ws + [ws[0]])))
         m2b.append(("m2b_length", " ".join(ws + ws)))
+    # word counts outside 12..24 whose checksum, computed by the same rule, is right (must still be refused)
+    for nbytes in (4, 8, 12, 36, 40, 44, 48, 64):
+        for e in (bytes(nbytes), b"\xff" * nbytes, rbytes(rng, nbytes), rbytes(rng, nbytes)):
+            m2b.append(("m2b_length", " ".join(oracle_words(e))))
+            m2b.append(("m2b_length", " ".join(w[:4] for w in oracle_words(e))))
     # random table words (1/16 .. 1/256 pass the checksum)
-    for _ in range(ctx.n(400)):
+    for _ in range(ctx.n(300)):
         m2b.append(("m2b_random12", " ".join(rng.choice(W) for _ in range(12))))
     for k in (15, 18, 21, 24):
         for _ in range(ctx.n(40)):
             m2b.append(("m2b_randomN", " ".join(rng.choice(W) for _ in range(k))))
     for _ in range(ctx.n(60)):
         m2b.append(("m2b_randomprefix", " ".join(rng.choice(W)[:4] for _ in range(12))))
-    # every table word as the last word (exactly 2^(11-cs) of them pass)
-    sweep = [ws for ws in valid if len(ws) == 12][5:5 + ctx.n(1, 4)] + long24[5:5 + ctx.n(1, 2)]
-    for ws in sweep:
-        for w in W:
+    # table words as the last word (2^(11-cs) of the 2048 pass; a model lookup scans the table, so the quick tier
+    # takes every second / eighth word, the thorough tier all of them)
+    for ws in [ws for ws in valid if len(ws) == 12][7:7 + ctx.n(1, 4)]:
+        for w in W[rng.randrange(2):: 2] if not ctx.thorough else W:
+            m2b.append(("m2b_lastword", " ".join(ws[:-1] + [w])))
+    for ws in long24[7:7 + ctx.n(1, 2)]:
+        for w in W[rng.randrange(8):: 8] if not ctx.thorough else W:
             m2b.append(("m2b_lastword", " ".join(ws[:-1] + [w])))
     for kind, m in m2b:
         add(kind, f"m2b {xs(m)}")
@@ -576,26 +587,27 @@ def run(ctx):
     fm_cases = []  # (mnemonic string, password)
     for k in WORD_COUNTS:
         ws = rng.choice(by_size[k])
-        for pw in passphrases():
+        for j, pw in enumerate(passphrases()):
             add("seed", f"seed {xs(' '.join(ws))} {xb(pw)}")
-            add("master", f"master {xs(' '.join(ws))} {xb(pw)}")
+            if k == 12 or j % 4 == 0:  # a full from_mnemonic costs an EC multiplication
+                add("master", f"master {xs(' '.join(ws))} {xb(pw)}")
         fm_cases.append((" ".join(ws), rng.choice(passphrases())))
-    for _ in range(ctx.n(120)):
+    for _ in range(ctx.n(80)):
         ws = rng.choice(valid)
         add("seed", f"seed {xs(' '.join(ws))} {xb(rng.choice(passphrases()))}")
-    for _ in range(ctx.n(60)):
+    for _ in range(ctx.n(30)):
         ws = rng.choice(valid)
         add("master", f"master {xs(' '.join(ws))} {xb(rng.choice(passphrases()))}")
-    for _ in range(ctx.n(30)):
+    for _ in range(ctx.n(12)):
         fm_cases.append((" ".join(rng.choice(valid)), rng.choice(passphrases())))
     # accepted mnemonics that are not already in normal form
     vsel = list(variants)
     rng.shuffle(vsel)
-    for ws, v in vsel[: ctx.n(80)]:
+    for ws, v in vsel[: ctx.n(50)]:
         pw = rng.choice(passphrases())
         add("seed_variant", f"seed {xs(v)} {xb(pw)}")
         preds.append(("prefix_same", {"full": " ".join(ws), "variant": v, "pw": xb(pw)}))
-    for ws, v in vsel[ctx.n(80): ctx.n(80) + ctx.n(30)]:
+    for ws, v in vsel[ctx.n(50): ctx.n(50) + ctx.n(16)]:
         pw = rng.choice(passphrases())
         add("master_variant", f"master {xs(v)} {xb(pw)}")
         fm_cases.append((v, pw))
@@ -603,7 +615,7 @@ def run(ctx):
     passing = [m for k, m in m2b if k in ("m2b_random12", "m2b_randomN", "m2b_lastword", "m2b_randomprefix", "m2b_otherword")
                and oracle_decode(m) is not None]
     rng.shuffle(passing)
-    for m in passing[: ctx.n(20)]:
+    for m in passing[: ctx.n(8)]:
         pw = rng.choice(passphrases())
         add("seed", f"seed {xs(m)} {xb(pw)}")
         fm_cases.append((m, pw))
@@ -680,15 +692,27 @@ def run(ctx):
         add("utf8", f"utf8 {xs(s)}")
 
     # ---- run both sides
-    answers = batch_parallel(drv, [model_line(l) for _, l in lines], workers=ctx.workers)
+    order = list(range(len(lines)))  # spread the expensive requests over the driver processes
+    ctx.sub_rng("driver-order").shuffle(order)
+    shuffled = batch_parallel(drv, [model_line(lines[i][1]) for i in order], workers=ctx.workers)
+    answers = [None] * len(lines)
+    for i, a in zip(order, shuffled):
+        answers[i] = a
 
     def heavy_line(line):
         t = line.split(" ", 5)
         return t[0] in HEAVY_OPS or (t[0] in ("pbkdf2v", "rfc2898") and int(t[4]) >= 1000)
 
-    heavy = [l for _, l in lines if heavy_line(l)]
-    rng.shuffle(heavy)
-    impl_ans = dict(zip(heavy, pmap(impl_line, heavy, workers=ctx.workers, chunksize=1)))
+    hp = [i for i, (kind, case) in enumerate(preds) if kind in HEAVY_PREDS or
+          (kind == "pbkdf2_rfc2898" and case["iterations"] >= 1000)]
+    jobs = [("line", l) for _, l in lines if heavy_line(l)] + [("pred", preds[i][0], preds[i][1], i) for i in hp]
+    rng.shuffle(jobs)
+    impl_ans, hres = {}, {}
+    for job, res in zip(jobs, pmap(_heavy_job, jobs, workers=ctx.workers, chunksize=1)):
+        if job[0] == "line":
+            impl_ans[job[1]] = res
+        else:
+            hres[job[3]] = res
     for (kind, line), model in zip(lines, answers):
         impl = impl_ans[line] if line in impl_ans else impl_line(line)
         if rec.compare(kind, {"line": line}, impl, model, determined=True, key=_key(line),
@@ -696,9 +720,6 @@ def run(ctx):
             rec.sample(kind, {"request": line, "answer": model})
         if impl == REJECT:
             rec.count(kind + ":reject")
-    hp = [i for i, (kind, _) in enumerate(preds) if kind in HEAVY_PREDS or
-          (kind == "pbkdf2_rfc2898" and preds[i][1]["iterations"] >= 1000)]
-    hres = dict(zip(hp, pmap(_eval_job, [preds[i] for i in hp], workers=ctx.workers, chunksize=1)))
     for i, (kind, case) in enumerate(preds):
         ok, got, want = hres[i] if i in hres else eval_pred(kind, case)
         rec.cov_pred(kind, case)
